@@ -426,10 +426,10 @@ fn main() {
             (Spec::SumVec { max: 1, len: 2, chunk: 1 }, c(289, 289, if q { 3 } else { 27 }, 1)),
             (Spec::SumVec { max: 1, len: 2, chunk: 2 }, c(289, 17, if q { 9 } else { 81 }, 1)),
             (Spec::SumVec { max: 1, len: 3, chunk: 2 }, c(4913, 289, if q { 1 } else { 3 }, 1)),
-            (Spec::Histogram { len: 2, chunk: 1 }, c(289, 289, if q { 1 } else { 3 }, if q { 36 } else { 289 })),
+            (Spec::Histogram { len: 2, chunk: 1 }, c(289, 289, if q { 1 } else { 3 }, if q { 17 } else { 289 })),
             (Spec::Histogram { len: 2, chunk: 2 }, c(289, 17, 3, if q { 36 } else { 289 })),
-            (Spec::Histogram { len: 3, chunk: 2 }, c(4913, 289, 1, if q { 4 } else { 36 })),
-            (Spec::Multihot { len: 2, max_weight: 1, chunk: 2 }, c(4913, 289, 1, if q { 4 } else { 36 })),
+            (Spec::Histogram { len: 3, chunk: 2 }, c(4913, if q { 72 } else { 289 }, 1, if q { 2 } else { 36 })),
+            (Spec::Multihot { len: 2, max_weight: 1, chunk: 2 }, c(4913, if q { 72 } else { 289 }, 1, if q { 2 } else { 36 })),
             (Spec::L1 { max: 1, len: 1, chunk: 2 }, c(289, 17, 3, if q { 36 } else { 289 })),
         ];
         if !q {
